@@ -48,6 +48,9 @@ CHECKS = {
     "C12": dict(level="exploration", technique="runtime monitoring: panic hook + watchdog around feed_file, recording doubles / hook counters before a runtime exists, self-consistency oracle across repetitions, processes, compilation histories and limit configurations",
                 text="held on the executions observed: token soups over the grammar's alphabet, mutations and splices of the 420 shipped scripts and the book's code fences, every numeric-literal / identifier / string-literal edge spelling, bracket and type nesting to 64 (100 in the thorough tier) and generated core programs were each compiled four times (twice in each of two processes, with different compilations before them and different limits): no panic, no non-termination, no touch of writer / clock / rng and no evaluation event before a runtime existed, identical acceptance and identical error text; accepted programs behave identically when executed twice",
                 note="termination is judged by a 15 s watchdog plus a 45 s solo re-run; texts up to 6 kB"),
+    "C01": dict(level="exploration", technique="runtime monitoring: panic hook + catch_unwind + process-death attribution around instantiate / run_function / forcing of every exported value; shape walker (value against the static type the compiler assigned) over every value produced; acceptance observed, never predicted",
+                text="held on the executions observed: type-directed calls of every standard-library overload with tame and hostile literals, a list of ~150 near-miss programs aimed at the corner rules (callable arity, generic binding over several parameters, bottom type, defaults, forward references, calls through function values), generated core programs and mutants of the 420 shipped scripts were given to the compiler; every accepted one was instantiated and each zero-argument function run under seven limit configurations: each step ended in a value, an error value or a violation, never a panic, abort or hang under limits, and every value (elements forced) had the shape of its static type",
+                note="model-free; memory/time exhaustion without the corresponding limit is the host's business (C10 covers limits); the first 24 elements of each container are forced"),
 }
 REASON_PENDING = "check under construction in this round (not yet claimed)"
 
